@@ -75,7 +75,15 @@ impl Cfg {
         c.set_layers(self.layers.layers());
         c.with_compression_level(self.level).expect("level");
         if self.layers.encrypted() {
-            c.add_public_keys(&keys::publics(self.recipients));
+            // recipients are registered the way callers do it: one call for one key, and for several keys
+            // a first call with all but the last key followed by a second call with the last one
+            let ks = keys::publics(self.recipients);
+            if ks.len() >= 2 {
+                c.add_public_keys(&ks[..ks.len() - 1]);
+                c.add_public_keys(&ks[ks.len() - 1..]);
+            } else {
+                c.add_public_keys(&ks);
+            }
         }
         c
     }
@@ -144,6 +152,8 @@ pub struct Program {
     pub entropy: Entropy,
     /// explicit full content per file (overrides the generator), used for adversarial contents
     pub custom: Option<Vec<Vec<u8>>>,
+    /// appends go through `mla::helpers::StreamWriter` (io::Write on an open file) in 7-byte writes
+    pub stream_writer: bool,
 }
 
 pub fn default_names(n: usize) -> Vec<String> {
@@ -160,7 +170,7 @@ impl Program {
             })
             .max()
             .unwrap_or(0);
-        Program { ops, names: default_names(n), entropy, custom: None }
+        Program { ops, names: default_names(n), entropy, custom: None, stream_writer: false }
     }
     pub fn short(&self) -> String {
         self.ops.iter().map(|o| o.short()).collect::<Vec<_>>().join(" ")
@@ -181,6 +191,9 @@ impl Program {
         let mut j = json!({"ops": self.ops.iter().map(|o| o.json()).collect::<Vec<_>>(), "names": names, "entropy": self.entropy.tag()});
         if let Some(c) = &self.custom {
             j["custom_hex"] = json!(c.iter().map(hex::encode).collect::<Vec<_>>());
+        }
+        if self.stream_writer {
+            j["stream_writer"] = json!(true);
         }
         j
     }
@@ -203,7 +216,7 @@ impl Program {
             })
             .unwrap_or_default();
         let custom = v["custom_hex"].as_array().map(|a| a.iter().map(|h| hex::decode(h.as_str().unwrap_or("")).unwrap_or_default()).collect());
-        Program { ops, names, entropy: Entropy::from_tag(v["entropy"].as_str().unwrap_or("pattern")), custom }
+        Program { ops, names, entropy: Entropy::from_tag(v["entropy"].as_str().unwrap_or("pattern")), custom, stream_writer: v["stream_writer"].as_bool().unwrap_or(false) }
     }
 
     /// content bytes [start, start+len) of file i
@@ -355,7 +368,15 @@ pub fn run_program_on<W: Write>(
                     Some(_) => Box::new(Cursor::new(p.bytes(i, l, s))),
                     None => Box::new(content::GenReader { file: i, pos: l, end: l + s as u64, e: p.entropy }),
                 };
-                w.append_file_content(ids[&i], s as u64, src).map_err(|e| format!("op {k} {}: {e:?}", o.short()))?;
+                if p.stream_writer {
+                    let data = p.bytes(i, l, s);
+                    let mut sw = mla::helpers::StreamWriter::new(&mut w, ids[&i]);
+                    for piece in data.chunks(7) {
+                        sw.write_all(piece).map_err(|e| format!("op {k} {} (StreamWriter): {e:?}", o.short()))?;
+                    }
+                } else {
+                    w.append_file_content(ids[&i], s as u64, src).map_err(|e| format!("op {k} {}: {e:?}", o.short()))?;
+                }
                 lens.insert(i, l + s as u64);
             }
             Op::End(i) => {
@@ -369,7 +390,13 @@ pub fn run_program_on<W: Write>(
                 w.add_file(&p.names[i], s as u64, src).map_err(|e| format!("op {k} {}: {e:?}", o.short()))?;
             }
             Op::Flush => {
-                w.flush().map_err(|e| format!("op {k} flush: {e:?}"))?;
+                if p.stream_writer && !ids.is_empty() {
+                    // flush through the StreamWriter of some open file (it forwards to the archive)
+                    let any = *ids.values().next().unwrap();
+                    mla::helpers::StreamWriter::new(&mut w, any).flush().map_err(|e| format!("op {k} flush (StreamWriter): {e:?}"))?;
+                } else {
+                    w.flush().map_err(|e| format!("op {k} flush: {e:?}"))?;
+                }
                 flush_lens.push(observe_len());
             }
         }
@@ -382,10 +409,50 @@ pub fn run_program_on<W: Write>(
 
 /// Run a program into memory; returns archive bytes and flush lengths.
 pub fn build(p: &Program, cfg: &Cfg) -> Result<(Vec<u8>, Vec<usize>), String> {
+    if !p.ops.contains(&Op::Flush) {
+        // plain Vec destination, recovered with ArchiveWriter::into_raw()
+        return build_into_raw(p, cfg).map(|b| (b, Vec::new()));
+    }
     let sink = SharedSink::new();
     let s2 = sink.clone();
     let out = run_program_on(p, cfg, sink.clone(), &move || s2.len(), true)?;
     Ok((sink.bytes(), out.flush_lens))
+}
+
+/// Same program, written into a Vec that is taken back with `into_raw()` after finalize.
+pub fn build_into_raw(p: &Program, cfg: &Cfg) -> Result<Vec<u8>, String> {
+    let mut w = ArchiveWriter::from_config(Vec::new(), cfg.writer_config()).map_err(|e| format!("from_config: {e:?}"))?;
+    let mut ids: BTreeMap<usize, u64> = BTreeMap::new();
+    let mut lens: BTreeMap<usize, u64> = BTreeMap::new();
+    for (k, o) in p.ops.iter().enumerate() {
+        match *o {
+            Op::Start(i) => {
+                ids.insert(i, w.start_file(&p.names[i]).map_err(|e| format!("op {k} {}: {e:?}", o.short()))?);
+                lens.insert(i, 0);
+            }
+            Op::Append(i, s) => {
+                let l = *lens.get(&i).ok_or("append before start")?;
+                let data = p.bytes(i, l, s);
+                if p.stream_writer {
+                    let mut sw = mla::helpers::StreamWriter::new(&mut w, ids[&i]);
+                    for piece in data.chunks(7) {
+                        sw.write_all(piece).map_err(|e| format!("op {k} {} (StreamWriter): {e:?}", o.short()))?;
+                    }
+                } else {
+                    w.append_file_content(ids[&i], s as u64, &data[..]).map_err(|e| format!("op {k} {}: {e:?}", o.short()))?;
+                }
+                lens.insert(i, l + s as u64);
+            }
+            Op::End(i) => w.end_file(ids[&i]).map_err(|e| format!("op {k} {}: {e:?}", o.short()))?,
+            Op::Add(i, s) => {
+                let data = p.bytes(i, 0, s);
+                w.add_file(&p.names[i], s as u64, &data[..]).map_err(|e| format!("op {k} {}: {e:?}", o.short()))?;
+            }
+            Op::Flush => w.flush().map_err(|e| format!("op {k} flush: {e:?}"))?,
+        }
+    }
+    w.finalize().map_err(|e| format!("finalize: {e:?}"))?;
+    Ok(w.into_raw())
 }
 
 /// Same without finalize (what a crashed writer left behind).
